@@ -12,6 +12,10 @@ from typing import List, Tuple, Optional, Callable
 from .opcodes import RegexOpCode as Op
 
 
+# ECMAScript LineTerminator: LF, CR, LINE SEPARATOR, PARAGRAPH SEPARATOR
+LINE_TERMINATORS = "\n\r\u2028\u2029"
+
+
 class RegexTimeoutError(Exception):
     """Raised when regex execution times out."""
 
@@ -209,7 +213,7 @@ class RegexVM:
                     pc, sp, captures, registers = self._backtrack(stack)
 
             elif opcode == Op.DOT:
-                if sp >= len(string) or string[sp] == "\n":
+                if sp >= len(string) or string[sp] in LINE_TERMINATORS:
                     if not stack:
                         return None
                     pc, sp, captures, registers = self._backtrack(stack)
@@ -349,7 +353,7 @@ class RegexVM:
                 pc += 1
 
             elif opcode == Op.LINE_START_M:
-                if sp != 0 and (sp >= len(string) or string[sp - 1] != "\n"):
+                if sp != 0 and string[sp - 1] not in LINE_TERMINATORS:
                     if not stack:
                         return None
                     pc, sp, captures, registers = self._backtrack(stack)
@@ -365,7 +369,7 @@ class RegexVM:
                 pc += 1
 
             elif opcode == Op.LINE_END_M:
-                if sp != len(string) and string[sp] != "\n":
+                if sp != len(string) and string[sp] not in LINE_TERMINATORS:
                     if not stack:
                         return None
                     pc, sp, captures, registers = self._backtrack(stack)
